@@ -146,10 +146,32 @@ func l2KeyOf(t *l2Target, c *l2Case) string {
 		return "l2/" + t.key + "/honest/baseline"
 	}
 	parts := []string{}
+	congruent := false
+	if len(c.repl) == 2 {
+		// two numbers that the code reduces modulo q and that are congruent: one class, whatever the numbers
+		a, b := t.comp(c.repl[0][0]), t.comp(c.repl[1][0])
+		isQ := func(x *l2Comp) bool { return x.kind == kScalar || x.qClass }
+		congruent = isQ(a) && isQ(b) && l2ResidueName(c.repl[0][1]) == l2ResidueName(c.repl[1][1])
+	}
 	for _, r := range c.repl {
-		parts = append(parts, r[0]+"/"+l2ClassOf(t.comp(r[0]), r[1]))
+		cl := l2ClassOf(t.comp(r[0]), r[1])
+		if congruent {
+			cl = "congruent-mod-q"
+		}
+		parts = append(parts, r[0]+"/"+cl)
 	}
 	return "l2/" + t.key + "/" + strings.Join(parts, "+")
+}
+
+// l2ResidueName: value names that denote the same residue modulo q get the same name.
+func l2ResidueName(v string) string {
+	switch v {
+	case "0", "q", "2q":
+		return "0"
+	case "1", "q+1":
+		return "1"
+	}
+	return v
 }
 
 // ---------------------------------------------------------------- worker side
@@ -800,6 +822,7 @@ func RunLayer2(r *core.Run) {
 	leaks := map[string]int{}
 	executed := 0
 	pairsExec := 0
+	nSamples, nFailSamples := 0, 0
 	for _, k := range ks {
 		res := p.results[k]
 		c := &cases[k]
@@ -821,12 +844,22 @@ func RunLayer2(r *core.Run) {
 		if len(c.repl) == 2 {
 			pairsExec++
 		}
-		if len(c.repl) == 1 {
-			r.Sample(6, map[string]interface{}{"target": t.name, "component": c.repl[0][0], "value": c.repl[0][1],
-				"class": l2ClassOf(t.comp(c.repl[0][0]), c.repl[0][1]), "input": res.input, "outcome_class": res.class, "outcome": res.outcome})
+		if len(c.repl) >= 1 && (k%1013 == 1 || (res.class != "returns" && nFailSamples < 2)) && nSamples < 10 {
+			if res.class != "returns" {
+				nFailSamples++
+			}
+			nSamples++
+			r.ForceSample(map[string]interface{}{"layer": 2, "case": k, "target": t.name, "replaced": c.repl, "key": l2KeyOf(t, c),
+				"input": res.input, "outcome_class": res.class, "outcome": res.outcome, "ms": res.ms})
 		}
 	}
-	for key, res := range firstOf {
+	allKeys := make([]string, 0, len(firstOf))
+	for key := range firstOf {
+		allKeys = append(allKeys, key)
+	}
+	sort.Strings(allKeys)
+	for _, key := range allKeys {
+		res := firstOf[key]
 		c := &cases[res.k]
 		t := targets[c.tgt]
 		if res.class != "hang" && !reproduced[key] {
